@@ -2,8 +2,9 @@
 //! mapping storage slots to account for larger structs as mapping values.
 
 use crate::{
+    constant::WORD_SIZE_BITS,
     tc::{lift::Lift, state::TypeCheckerState},
-    vm::value::{RuntimeBoxedVal, RSVD},
+    vm::value::{known::KnownWord, RuntimeBoxedVal, RSVD},
 };
 
 /// This pass detects and folds expressions that access values in mappings that
@@ -36,13 +37,22 @@ impl Lift for MappingOffset {
         fn insert_mapping_offset(data: &RSVD) -> Option<RSVD> {
             let RSVD::Add { left, right } = data else { return None };
 
-            let (key, slot, offset) = match (left.data(), right.data()) {
+            let (key, slot, value) = match (left.data(), right.data()) {
                 (RSVD::MappingIndex { key, slot, .. }, RSVD::KnownData { value })
                 | (RSVD::KnownData { value }, RSVD::MappingIndex { key, slot, .. }) => {
-                    (key, slot, value.into())
+                    (key, slot, value)
                 }
                 _ => return None,
             };
+
+            // The constant is a number of words into the value of the mapping, which gets
+            // scaled to a number of bits later on. One that does not survive the conversion,
+            // or cannot be scaled, is not an offset into any struct and is left alone.
+            let offset: usize = value.into();
+            let end_in_bits = offset.checked_add(1).and_then(|words| words.checked_mul(WORD_SIZE_BITS));
+            if KnownWord::from(offset) != *value || end_in_bits.is_none() {
+                return None;
+            }
 
             Some(RSVD::MappingIndex {
                 key:        key.clone().transform_data(insert_mapping_offset),
